@@ -74,3 +74,196 @@ Proof.
     all: repeat match goal with |- context[?a <? ?b] => destruct (a <? b) eqn:? end; try lia.
     all: f_equal; try lia.
 Qed.
+
+(* ---- the Slice loop: with enough fuel it returns exactly the picked progression *)
+Lemma signum_sgn_pos d st : 0 < st -> (signum d =? Z.sgn st) = (0 <? d).
+Proof. intros. unfold signum. rewrite (Z.sgn_pos st) by lia. destruct d; cbn; lia. Qed.
+Lemma signum_sgn_neg d st : st < 0 -> (signum d =? Z.sgn st) = (d <? 0).
+Proof. intros. unfold signum. rewrite (Z.sgn_neg st) by lia. destruct d; cbn; lia. Qed.
+
+Definition B : Z := 2305843009213693952. (* 2^61 *)
+Definition S32 : Z := 4294967296. (* 2^32 *)
+
+Lemma slice_loop_ok {A} (xs : list A) e st :
+  let n := Z.of_nat (length xs) in
+  st <> 0 -> - S32 <= st <= S32 -> - B <= e <= B ->
+  forall (m fuel : nat) i,
+    - B - S32 <= i <= B + S32 ->
+    (0 < st -> i < e -> 0 <= i /\ e <= n) ->
+    (st < 0 -> e < i -> i <= n - 1 /\ -1 <= e) ->
+    Z.of_nat m = plen i e st -> (m < fuel)%nat ->
+    slice_loop fuel xs i e st (Z.sgn st) = Ok (pick xs (progression i st m)) /\
+    length (pick xs (progression i st m)) = m.
+Proof.
+  intros n Hst Bst Be. unfold B, S32 in *.
+  induction m as [|m IH]; intros fuel i Bi Hpos Hneg Hm Hfuel.
+  - destruct fuel as [|f]; [lia|]. cbn [slice_loop].
+    rewrite wrap64_small by lia.
+    unfold plen in Hm.
+    destruct (Z_lt_ge_dec st 0) as [Hs|Hs].
+    + rewrite signum_sgn_neg by lia.
+      destruct (st <? 0) eqn:E; [|lia].
+      destruct (e - i <? 0) eqn:E1.
+      * pose proof (cnt_pos (i - e) (- st)). lia.
+      * split; reflexivity.
+    + rewrite signum_sgn_pos by lia.
+      destruct (st <? 0) eqn:E; [lia|].
+      destruct (0 <? e - i) eqn:E1.
+      * pose proof (cnt_pos (e - i) st). lia.
+      * split; reflexivity.
+  - destruct fuel as [|f]; [lia|]. cbn [slice_loop].
+    rewrite wrap64_small by lia.
+    rewrite progression_S, pick_cons.
+    unfold plen in Hm.
+    destruct (Z_lt_ge_dec st 0) as [Hs|Hs].
+    + rewrite signum_sgn_neg by lia.
+      destruct (st <? 0) eqn:E; [|lia].
+      destruct (e - i <? 0) eqn:E1.
+      2:{ rewrite cnt_nonpos in Hm by lia. lia. }
+      destruct (Hneg Hs ltac:(lia)) as [Hi1 He1].
+      destruct (valid_index xs i ltac:(lia)) as [x [Hz Ha]].
+      rewrite Hz, Ha.
+      assert (Bw : wrap64 (i + st) = i + st) by (apply wrap64_small; lia).
+      rewrite Bw.
+      assert (Hp : Z.of_nat m = plen (i + st) e st).
+      { unfold plen. rewrite E.
+        replace (i + st - e) with ((i - e) - (- st)) by lia.
+        rewrite cnt_step by lia. lia. }
+      destruct (IH f (i + st)) as [IH1 IH2]; try lia.
+      rewrite IH1. split; [reflexivity|]. cbn [app length]. lia.
+    + rewrite signum_sgn_pos by lia.
+      destruct (st <? 0) eqn:E; [lia|].
+      destruct (0 <? e - i) eqn:E1.
+      2:{ rewrite cnt_nonpos in Hm by lia. lia. }
+      destruct (Hpos ltac:(lia) ltac:(lia)) as [Hi1 He1].
+      destruct (valid_index xs i ltac:(lia)) as [x [Hz Ha]].
+      rewrite Hz, Ha.
+      assert (Bw : wrap64 (i + st) = i + st) by (apply wrap64_small; lia).
+      rewrite Bw.
+      assert (Hp : Z.of_nat m = plen (i + st) e st).
+      { unfold plen. rewrite E.
+        replace (e - (i + st)) with ((e - i) - st) by lia.
+        rewrite cnt_step by lia. lia. }
+      destruct (IH f (i + st)) as [IH1 IH2]; try lia.
+      rewrite IH1. split; [reflexivity|]. cbn [app length]. lia.
+Qed.
+
+(* ---- the step = 1 fast path s[start:end] *)
+Lemma skipn_nth {A} (xs : list A) k x : nth_error xs k = Some x -> skipn k xs = x :: skipn (S k) xs.
+Proof.
+  revert k. induction xs as [|y ys IH]; intros [|k] H; cbn in *; try discriminate.
+  - injection H as ->. reflexivity.
+  - apply IH in H. exact H.
+Qed.
+
+Lemma at_index_nth {A} (xs : list A) i x : at_index xs i = Some x -> 0 <= i /\ nth_error xs (Z.to_nat i) = Some x.
+Proof.
+  unfold at_index. destruct ((0 <=? i) && (i <? Z.of_nat (length xs))) eqn:E; [|discriminate].
+  intros H. split; [lia|exact H].
+Qed.
+
+Lemma pick_contiguous {A} (xs : list A) (m : nat) : forall s,
+  0 <= s -> s + Z.of_nat m <= Z.of_nat (length xs) ->
+  pick xs (progression s 1 m) = firstn m (skipn (Z.to_nat s) xs).
+Proof.
+  induction m as [|m IH]; intros s H0 H1.
+  - reflexivity.
+  - rewrite progression_S, pick_cons.
+    destruct (valid_index xs s ltac:(lia)) as [x [_ Ha]]. rewrite Ha.
+    apply at_index_nth in Ha. destruct Ha as [_ Hn].
+    rewrite (skipn_nth _ _ _ Hn). cbn [app firstn]. f_equal.
+    rewrite IH by lia. f_equal. f_equal. lia.
+Qed.
+
+(* ---- what slice_bounds computes, in terms of Python's slice.indices *)
+Lemma as_index_small v len r0 :
+  small_arg v = true -> 0 <= len <= B ->
+  as_index v len r0 =
+  match int_or_none v with
+  | None => None
+  | Some None => Some r0
+  | Some (Some z) => Some (if z <? 0 then z + len else z)
+  end.
+Proof.
+  unfold B. intros Hs Hl. destruct v as [|z|]; cbn in *; try reflexivity.
+  rewrite Hs. apply in_int32_bounds in Hs.
+  destruct (z <? 0); [rewrite wrap64_small by lia|]; reflexivity.
+Qed.
+
+Definition adj (len : Z) (v : option Z) (dflt : Z) : Z :=
+  match v with None => dflt | Some z => if z <? 0 then z + len else z end.
+
+Definition go_bounds (n : Z) (lo hi : option Z) (st : Z) : Z * Z :=
+  if st >? 0 then
+    let s := clamp0 (adj n lo 0) n in
+    let e := clamp0 (adj n hi n) n in
+    (s, if e <? s then s else e)
+  else
+    let s0 := adj n lo (n - 1) in
+    let s0 := if s0 >=? n then n - 1 else s0 in
+    let e0 := adj n hi (-1) in
+    let e := if e0 <? -1 then -1 else e0 in
+    ((if s0 <? e then e else s0), e).
+
+Lemma slice_bounds_eq n lo hi st stv :
+  0 <= n <= B -> small_arg lo = true -> small_arg hi = true ->
+  slice_step st = Some stv ->
+  slice_bounds n lo hi st =
+  match int_or_none lo, int_or_none hi with
+  | Some lo', Some hi' => let '(s, e) := go_bounds n lo' hi' stv in Some (s, e, stv)
+  | _, _ => None
+  end.
+Proof.
+  intros Hn Hlo Hhi Hst. unfold slice_bounds, indices, go_bounds. rewrite Hst.
+  rewrite !(as_index_small lo) by assumption.
+  rewrite !(as_index_small hi) by assumption.
+  rewrite (wrap64_small (n - 1)) by (unfold B in *; lia).
+  destruct (stv >? 0) eqn:E.
+  - destruct (int_or_none lo) as [[zl|]|]; destruct (int_or_none hi) as [[zh|]|]; cbn [adj]; reflexivity.
+  - destruct (int_or_none lo) as [[zl|]|]; destruct (int_or_none hi) as [[zh|]|]; cbn [adj]; reflexivity.
+Qed.
+
+Definition opt_small (v : option Z) : Prop := match v with Some z => -2147483648 <= z <= 2147483647 | None => True end.
+
+Ltac split_ifs :=
+  repeat match goal with
+         | |- context[if ?a <? ?b then _ else _] => destruct (a <? b) eqn:?
+         | |- context[if ?a >? ?b then _ else _] => destruct (a >? b) eqn:?
+         | |- context[if ?a >=? ?b then _ else _] => destruct (a >=? b) eqn:?
+         end.
+
+Lemma go_bounds_agree n lo hi st :
+  0 <= n <= B -> opt_small lo -> opt_small hi -> st <> 0 ->
+  let '(s, e) := go_bounds n lo hi st in
+  let '(sp, ep, len) := slice_indices n lo hi st in
+  plen s e st = len /\ (len = 0 \/ s = sp) /\
+  - B <= s <= B /\ - B <= e <= B /\
+  (0 < st -> 0 <= s <= e /\ e <= n) /\
+  (st < 0 -> e <= s /\ (e < s -> s <= n - 1 /\ -1 <= e)).
+Proof.
+  intros Hn Hlo Hhi Hst.
+  pose proof (slice_indices_len n lo hi st) as HL.
+  destruct (slice_indices n lo hi st) as [[sp ep] len] eqn:ES.
+  unfold slice_indices in ES. injection ES as Es Ee El.
+  destruct (go_bounds n lo hi st) as [s e] eqn:EG.
+  unfold go_bounds in EG.
+  unfold B in *.
+  assert (Hc : forall k d, k <= 0 -> cnt k d = 0) by (intros; apply cnt_nonpos; assumption).
+  destruct (st >? 0) eqn:E0.
+  - injection EG as Gs Ge.
+    assert (Est : (st <? 0) = false) by lia. rewrite Est in *.
+    unfold plen in *. rewrite Est in *.
+    unfold clamp0, adj, adjust_bound in *.
+    destruct lo as [zl|], hi as [zh|]; cbn [opt_small] in *;
+      subst s e sp ep; rewrite HL; clear HL El;
+      split_ifs; repeat split; try lia;
+      try (first [ f_equal; lia | rewrite !Hc by lia; reflexivity | right; lia | left; apply Hc; lia ]).
+  - injection EG as Gs Ge.
+    assert (Est : (st <? 0) = true) by lia. rewrite Est in *.
+    unfold plen in *. rewrite Est in *.
+    unfold clamp0, adj, adjust_bound in *.
+    destruct lo as [zl|], hi as [zh|]; cbn [opt_small] in *;
+      subst s e sp ep; rewrite HL; clear HL El;
+      split_ifs; repeat split; try lia;
+      try (first [ f_equal; lia | rewrite !Hc by lia; reflexivity | right; lia | left; apply Hc; lia ]).
+Qed.
